@@ -1,9 +1,10 @@
-#!/bin/sh
-# usage: tools/trymut.sh <patch.diff> <Cxx> [tier]  — apply a seeded change to /repo, run the check, undo it
+#!/bin/bash
+# usage: tools/trymut.sh <patch.diff> <Cxx> [tier]  — apply a seeded change to a scratch worktree of /repo's HEAD, run the
+# check against it (VERIF_REPO), remove the worktree. /repo itself is not touched.
 p=$(readlink -f $1); id=$2; tier=${3:-quick}
-git -C /repo diff --quiet || { echo "/repo not clean"; exit 2; }
-git -C /repo apply "$p" || { echo "patch does not apply"; exit 2; }
-cd /verif && ./check $id --tier $tier | tail -4
-rc=$?
-git -C /repo checkout -- . 
-git -C /repo status --short | grep -v '^??' | head
+W=/root/scratch/tm.$$
+mkdir -p /root/scratch
+git -C /repo worktree add -q --detach $W HEAD || exit 2
+trap "git -C /repo worktree remove --force $W" EXIT
+git -C $W apply "$p" || { echo "patch does not apply"; exit 2; }
+cd /verif && VERIF_REPO=$W ./check $id --tier $tier | tail -4
